@@ -24,7 +24,7 @@ func init() {
 	addReplay("C04", "history", replayC04History)
 	addRun("C04", "object spellings: random object trees (all byte values in names and strings, boundary integers, reals, references) written by the independent renderer with every conforming spelling choice and read back by the real scanner, bare and inside brackets, followed by random terminators; distinct by spelling, non-trivial when the spelling differs from the plain one", runC04Lex)
 	addReplay("C04", "lexical", replayC04Lex)
-	addRun("C04", "stream extents: files with streams whose /Length is correct (any body), indirect, missing, wrong (not pointing at white space + endstream), negative, null, a real, a name, or a reference to a missing/free/non-integer object; bodies for the unusable lengths do not end in CR/LF and contain no EOL+endstream (but contain endstream, endobj and EOLs otherwise); the EOL before endstream is LF, CR LF or CR; Reader.Get must return exactly the body. Non-trivial when the length is unusable; distinct by file bytes", runC04Streams)
+	addRun("C04", "stream extents: files with streams whose /Length is correct (any body), indirect, missing, wrong (not pointing at white space + endstream), negative, null, a real, a name, or a reference to a missing/free/non-integer object; bodies for the unusable lengths contain no EOL+endstream (but contain endstream, endobj and EOLs otherwise) and end in any bytes, also LF, CR LF, LF LF, CR CR LF, LF CR - except a bare CR in front of the marker LF; the EOL marker before endstream is LF, CR LF or CR; Reader.Get must return exactly the body. Non-trivial when the length is unusable; distinct by file bytes", runC04Streams)
 	addReplay("C04", "stream", replayC04Stream)
 	setCanon("C04", canonReals)
 }
@@ -782,8 +782,17 @@ func hisStreamPlan(r *Rand) *hisPlan {
 			a.LenMode = mode
 		default:
 			body := hisNiceBody(r)
-			a.Val = hisVal{Stm: &hisStream{Dict: dict, Data: body}}
 			a.EndEOL = Pick(r, []string{"\n", "\r\n", "\r"})
+			if r.P(1, 3) {
+				// D-C20-1: the data may end in end-of-line bytes of its own; exactly ONE marker in
+				// front of endstream is not data.  Outside: data ending in a bare CR in front of the
+				// marker LF (the file shows the one marker CR LF).
+				tail := Pick(r, []string{"\n", "\n", "\r\n", "\n\n", "\r\r\n", "\r", "\n\r"})
+				if !(strings.HasSuffix(tail, "\r") && a.EndEOL == "\n") {
+					body = append(body, tail...)
+				}
+			}
+			a.Val = hisVal{Stm: &hisStream{Dict: dict, Data: body}}
 			switch mode {
 			case 2:
 				a.LenMode = 2
@@ -891,8 +900,16 @@ func runC04Streams(c *Ctx) {
 		if key != "" {
 			if key == "history-get" {
 				key = "stream-extent"
+				for _, a := range plan.Revs[0].Actions {
+					if st := a.Val.Stm; st != nil && a.LenMode >= 2 && len(st.Data) > 0 && (st.Data[len(st.Data)-1] == '\n' || st.Data[len(st.Data)-1] == '\r') {
+						// a stream with an unusable /Length whose data ends in an EOL of its own
+						// (regression key of D-C20-1: the EOL was stripped together with the marker)
+						key = "stream-extent-trailing-eol"
+					}
+				}
 			}
 			c.Violate("stream", key, desc, fmt.Sprint(seed))
+			continue // reported under its class key; the spec line would repeat the same difference
 		}
 		if answers != nil {
 			c.Emit("HIS spec "+f.historyToken()+" "+hisQueryToken(hisQueries(f)), strings.Join(answers, " "))
